@@ -32,3 +32,14 @@ reg('C13',
     'the property text are replaced by this bounded exhaustive space.',
     'explicit-state BFS with canonical state hashing and deviation-bounded environment choices, real implementation vs rebuilt reference',
     'DESIGN.md s5 C13')
+
+reg('C18',
+    'The table space is finite and is enumerated completely: 118 elements x (no isotope + every tabulated isotope) x charge -4..+4 x radical flag, '
+    'plus hydrogens None/0..6 per element. Each state is checked against a hand-written IUPAC symbol table (symbol<->number inverse, module exports), '
+    'for equal key sets of the isotope tables containing the reference isotope, computable atomic masses, agreement of the common_isotopes tables in '
+    'both .pyx files with mdl_isotope-16, pack->unpack through the pyx model, a decoder of the matcher bit layout written from its layout comment '
+    '(one bit per field, inside the field window), compilable valence/saturation rule tables naming only existing elements, and Query*/Dynamic* variants.',
+    'Trusted: the symbol list in vf/props/c18.py; the .pyx sources are executed as a mechanically derived Python model with C integer semantics '
+    '(no Cython here). 19 elements whose reference isotope is missing from their tables are recorded as known findings keyed by element.',
+    'complete enumeration of a finite state space (all elements x isotopes x charges x radical) on the real tables and pack/matcher encoders',
+    'DESIGN.md s5 C18', thorough=False)
